@@ -18,10 +18,12 @@
 EXTENDS Integers, TLC
 
 CONSTANTS L,        \* length of an encoding in chunks
-          MaxV      \* number of save attempts explored
+          MaxV,     \* number of versions (= block heights) explored
+          RetainRule \* what Commit answers as RetainHeight: "zero" (the repository: keep every block) |
+                    \* "recent" (named alternative: keep one block below the current height)
 
-VARIABLES main, tmp, pc, mem, lastOk
-vars == <<main, tmp, pc, mem, lastOk>>
+VARIABLES main, tmp, pc, mem, lastOk, retain
+vars == <<main, tmp, pc, mem, lastOk, retain>>
 
 Absent == [v |-> -1, len |-> 0]
 Loadable(f) == f.len = L /\ f.v >= 0
@@ -31,23 +33,33 @@ Init == /\ main = [v |-> 0, len |-> L]     \* a previous complete save exists
         /\ pc = "idle"
         /\ mem = 0                         \* version held in memory
         /\ lastOk = 0                      \* last version whose PersistToDisk returned nil
+        /\ retain = 0                      \* highest RetainHeight a Commit has answered: Tendermint may
+                                           \* prune every block below it
 
-Begin   == pc = "idle" /\ mem < MaxV /\ mem' = mem + 1 /\ pc' = "create" /\ UNCHANGED <<main, tmp, lastOk>>
-Create  == pc = "create" /\ tmp' = [v |-> mem, len |-> 0] /\ pc' = "write" /\ UNCHANGED <<main, mem, lastOk>>
-Write   == pc = "write" /\ tmp.len < L /\ tmp' = [tmp EXCEPT !.len = @ + 1] /\ UNCHANGED <<main, pc, mem, lastOk>>
-WriteFail == pc = "write" /\ tmp.len < L /\ pc' = "close" /\ UNCHANGED <<main, tmp, mem, lastOk>>   \* Encode returns the error
-Sync    == pc = "write" /\ tmp.len = L /\ pc' = "rename" /\ UNCHANGED <<main, tmp, mem, lastOk>>
-SyncFail == pc = "write" /\ tmp.len = L /\ pc' = "close" /\ UNCHANGED <<main, tmp, mem, lastOk>>
-Rename  == pc = "rename" /\ main' = tmp /\ tmp' = Absent /\ lastOk' = mem /\ pc' = "close" /\ UNCHANGED mem
-Close   == pc = "close" /\ pc' = "idle" /\ UNCHANGED <<main, tmp, mem, lastOk>>
-(* the process dies; on restart the application is whatever the main file holds *)
-Crash   == pc # "idle" /\ pc' = "idle" /\ mem' = main.v /\ UNCHANGED <<main, tmp, lastOk>>
+RetainOf(h) == IF RetainRule = "recent" /\ h > 1 THEN h - 1 ELSE 0
+Max2(a, b) == IF a >= b THEN a ELSE b
+(* Commit of block mem+1: the time gate of maybePersistToDisk either starts a save (Begin) or not (Block) *)
+Begin   == pc = "idle" /\ mem < MaxV /\ mem' = mem + 1 /\ pc' = "create" /\ retain' = Max2(retain, RetainOf(mem + 1)) /\ UNCHANGED <<main, tmp, lastOk>>
+Block   == pc = "idle" /\ mem < MaxV /\ mem' = mem + 1 /\ retain' = Max2(retain, RetainOf(mem + 1)) /\ UNCHANGED <<main, tmp, pc, lastOk>>
+Create  == pc = "create" /\ tmp' = [v |-> mem, len |-> 0] /\ pc' = "write" /\ UNCHANGED <<main, mem, lastOk, retain>>
+Write   == pc = "write" /\ tmp.len < L /\ tmp' = [tmp EXCEPT !.len = @ + 1] /\ UNCHANGED <<main, pc, mem, lastOk, retain>>
+WriteFail == pc = "write" /\ tmp.len < L /\ pc' = "close" /\ UNCHANGED <<main, tmp, mem, lastOk, retain>>   \* Encode returns the error
+Sync    == pc = "write" /\ tmp.len = L /\ pc' = "rename" /\ UNCHANGED <<main, tmp, mem, lastOk, retain>>
+SyncFail == pc = "write" /\ tmp.len = L /\ pc' = "close" /\ UNCHANGED <<main, tmp, mem, lastOk, retain>>
+Rename  == pc = "rename" /\ main' = tmp /\ tmp' = Absent /\ lastOk' = mem /\ pc' = "close" /\ UNCHANGED <<mem, retain>>
+Close   == pc = "close" /\ pc' = "idle" /\ UNCHANGED <<main, tmp, mem, lastOk, retain>>
+(* the process dies; on restart the application is whatever the main file holds, and Tendermint
+   replays the blocks above that height: they must not have been pruned *)
+Crash   == pc' = "idle" /\ mem' = main.v /\ UNCHANGED <<main, tmp, lastOk, retain>>
 
-Next == Begin \/ Create \/ Write \/ WriteFail \/ Sync \/ SyncFail \/ Rename \/ Close \/ Crash
+Next == Begin \/ Block \/ Create \/ Write \/ WriteFail \/ Sync \/ SyncFail \/ Rename \/ Close \/ Crash
 Spec == Init /\ [][Next]_vars
 
 (* property layer *)
 C13_MainLoadable == Loadable(main)
 C13_MainIsLastOk == main.v = lastOk          \* a failed or interrupted save leaves the previous file
 C13_NeverAhead   == main.v <= mem \/ pc = "idle"
+(* "replaying the blocks after the saved height": block main.v + 1 and everything above it is still in
+   the block store, i.e. no Commit has asked Tendermint to prune beyond the saved height *)
+C13_BlocksKept   == retain <= main.v + 1
 =============================================================================
